@@ -28,6 +28,7 @@ structure Params where
   maxKey : Nat       -- sanity limit on the key length in DeserializeWALEntry (1 MiB)
   maxVal : Nat       -- sanity limit on the value length in DeserializeWALEntry (10 MiB)
   pollLimit : Nat    -- maxEntriesToReturn in Primary.getWALEntriesFromSequence (100)
+  pollBytes : Nat    -- maxBytesToReturn in Primary.getWALEntriesFromSequence (8 MiB of key+value bytes per response)
   deriving Repr, DecidableEq
 
 /-- the shape of the constants the proofs rely on. -/
@@ -245,10 +246,20 @@ def Replica.reconnect {κ : Type} (r : Replica κ) : Replica κ :=
 
 /-! ### the primary's selection -/
 
+/-- the response byte cap of `getWALEntriesFromSequence` (repair 7e3a1f2): the loop adds `len(key) + len(value)` of
+    entry `i` to a running total and cuts the list at the first `i > 0` whose total exceeds the cap — the first entry is
+    always kept. Returns the number of entries kept (`i` = entries already accepted, `total` = their bytes). -/
+def capCount (cap : Nat) : Nat → Nat → List Entry → Nat
+  | i, _, [] => i
+  | i, total, e :: es =>
+    let total := total + e.key.length + e.val.length
+    if 0 < i ∧ cap < total then i else capCount cap (i + 1) total es
+
 /-- `Primary.getWALEntriesFromSequence(from)`: the entries of the log numbered `from` or later
-    (`wal.GetEntriesFrom`), cut after the first `limit`. -/
-def select (L : List Entry) (from_ limit : Nat) : List Entry :=
-  (L.filter (fun e => e.seq ≥ from_)).take limit
+    (`wal.GetEntriesFrom`), cut after the first `limit`, then cut to the response byte cap. -/
+def select (L : List Entry) (from_ limit cap : Nat) : List Entry :=
+  let s := (L.filter (fun e => e.seq ≥ from_)).take limit
+  s.take (capCount cap 0 0 s)
 
 /-! ### delivery schedules -/
 
@@ -265,8 +276,8 @@ inductive Event where
 
 def Replica.step {κ : Type} (P : Params) (cb : κ → Entry → κ × Bool) (L : List Entry) (r : Replica κ) : Event → Replica κ
   | .deliver m => (r.receive P cb some { entries := m.map (toWire P) }).1
-  | .poll => (r.receive P cb some { entries := (select L r.app.expectedNext P.pollLimit).map (toWire P) }).1
-  | .pollAck => (r.receive P cb some { entries := (select L (succ64 r.app.lastAck) P.pollLimit).map (toWire P) }).1
+  | .poll => (r.receive P cb some { entries := (select L r.app.expectedNext P.pollLimit P.pollBytes).map (toWire P) }).1
+  | .pollAck => (r.receive P cb some { entries := (select L (succ64 r.app.lastAck) P.pollLimit P.pollBytes).map (toWire P) }).1
   | .ack => r.ack
   | .reconnect => r.reconnect
 
